@@ -207,6 +207,9 @@ def script_chain_kerning(rng, desc, skip):
                [C[0], C[2], val()]]
     if rng.random() < 0.5:
         kerning.append([B[2], B[0], val()])
+    extra = by.get("Hira", [])
+    if len(extra) >= 2:
+        kerning.append([extra[0], extra[1], val()])
     return kerning, groups
 
 
@@ -223,6 +226,8 @@ def gen(rng, idx, tier):
     chain = r < 0.45 and rng.random() < 0.12
     if chain:
         scripts = rng.sample(["Latn", "Cyrl", "Grek"], 3)
+        if rng.random() < 0.5:
+            scripts.append("Hira")          # a further, unrelated bucket behind the chain
     glyphs, desc = S.repertoire(rng, scripts=scripts, n=12 if chain else rng.choice([4, 6, 8, 10]))
     writer = rng.choice(["new", "new", "legacy"])
     names = [g["name"] for g in glyphs if g["name"] != ".notdef"]
